@@ -8,7 +8,7 @@ let comma s = String.split_on_char ',' s
 let nn s = n_of_int (ios s)
 let ni x = string_of_int (int_of_n x)
 
-let run_sacn ip univ steps =
+let run_sacn wire ip univ steps =
   let c = { c_ignore_preview = (ip <> "0"); c_univ = nn univ } in
   let st = ref init_ust in
   let now = ref t0 in
@@ -19,22 +19,36 @@ let run_sacn ip univ steps =
   let tT = ref [] and tD = ref [] and frozen = ref [] and cap = ref false in
   let verdicts = ref [] in
   List.iteri (fun i s ->
-    match colon s with
-    | [dt; vec; cid; prio; seq; u; flags; dmph; pdu] ->
+    let parsed =
+      match wire, colon s with
+      | false, [dt; vec; cid; prio; seq; u; flags; dmph; pdu] ->
+        let fl = ios flags in
+        Some (dt, None, { p_vec = nn vec; p_cid = nn cid; p_prio = nn prio; p_seq = nn seq; p_univ = nn u;
+                  p_preview = (fl land 1 <> 0); p_term = (fl land 2 <> 0); p_rev2 = (fl land 4 <> 0);
+                  p_dmph = nn dmph; p_pdu = bytes_of_hex pdu })
+      | true, [dt; cid; rev2; fvec; prio; seq; opts; u; dvec; dmph; pdu] ->
+        let w = { w_cid = nn cid; w_rev2 = (rev2 <> "0"); w_fvec = nn fvec; w_prio = nn prio; w_seq = nn seq;
+                  w_opts = nn opts; w_univ = nn u; w_dvec = nn dvec; w_dmph = nn dmph;
+                  w_pdu = bytes_of_hex pdu } in
+        Some (dt, Some w, pkt_of_wire w)
+      | _ -> None in
+    match parsed with
+    | Some (dt, wopt, p) ->
       now := !now + ios dt;
-      let fl = ios flags in
-      let p = { p_vec = nn vec; p_cid = nn cid; p_prio = nn prio; p_seq = nn seq; p_univ = nn u;
-                p_preview = (fl land 1 <> 0); p_term = (fl land 2 <> 0); p_rev2 = (fl land 4 <> 0);
-                p_dmph = nn dmph; p_pdu = bytes_of_hex pdu } in
       let before = List.length !st.u_srcs in
-      let (st', oc) = handle c (n_of_int !now) !st p in
+      let (st', oc) = (match wopt with
+                       | Some w -> handle_wire c (n_of_int !now) !st w
+                       | None -> handle c (n_of_int !now) !st p) in
+      (* a framing PDU that is not a data PDU is no packet for the text either *)
+      let is_data = (match wopt with Some w -> w.w_fvec = vECTOR_E131_DATA | None -> true) in
       st := st';
       let after = List.length st'.u_srcs in
       if after > !maxsrc then maxsrc := after;
       let keep = (match oc with ODiscard -> true | _ -> false) in
       let merged = (match oc with OMerge (_, _) -> true | _ -> false) in
       let rx_acc = (match oc with OMerge (Some _, _) -> true | _ -> false) in
-      let ((t', d'), d4) = xstep c (n_of_int !now) keep rx_acc !tT !tD p in
+      let ((t', d'), d4) = if is_data then xstep c (n_of_int !now) keep rx_acc !tT !tD p
+                            else ((!tT, !tD), false) in
       if d4 && not (List.mem 4 !verdicts) then verdicts := 4 :: !verdicts;
       tT := t'; tD := d';
       if over_cap (n_of_int !now) t' d' then cap := true;
@@ -65,7 +79,7 @@ let run_sacn ip univ steps =
         (String.concat "+" (List.map (fun s ->
            Printf.sprintf "%s.%s.%s.%s" (ni s.s_cid) (ni s.s_seq) (ni s.s_last) (hex_of_bytes s.s_buf))
            st'.u_srcs)))
-    | _ -> failwith "bad sacn step") steps;
+    | None -> failwith "bad sacn step") steps;
   let vs = List.sort compare !verdicts in
   Buffer.add_string out (Printf.sprintf ";txt=%s" (if List.mem 3 vs then "0" else "1"));
   if not (List.mem 3 vs) then begin
@@ -81,14 +95,19 @@ let run_sacn ip univ steps =
   Buffer.contents out
 
 let run_art ltp steps =
-  let c = { ac_net = n_of_int 4; ac_univ = n_of_int 0x23; ac_ltp = (ltp <> "0") } in
+  let cr = ref { ac_net = n_of_int 4; ac_univ = n_of_int 0x23; ac_ltp = (ltp <> "0") } in
   let port = ref init_aport in
   let now = ref t0 in
   let out = Buffer.create 256 in
   let letters = ref [] in
   let gG = ref [] and txt_ok = ref true and wild = ref false in
   List.iteri (fun i s ->
+    let c = !cr in
     match colon s with
+    | ["m"; mode] ->
+      cr := { c with ac_ltp = (mode <> "0") };
+      if i > 0 then Buffer.add_char out ';';
+      Buffer.add_string out (Printf.sprintf "o%d=m|%s" i (hex_of_bytes !port.ap_buf))
     | [dt; addr; net; u; lenf; data] ->
       now := !now + ios dt;
       let k = { k_addr = nn addr; k_net = nn net; k_univ = nn u; k_lenf = nn lenf;
@@ -120,7 +139,8 @@ let run_art ltp steps =
 
 let handle_payload (p : string) : string =
   match split p with
-  | ["sacn"; ip; univ; steps] -> run_sacn ip univ (comma steps)
+  | ["sacn"; ip; univ; steps] -> run_sacn false ip univ (comma steps)
+  | ["sacnw"; ip; univ; steps] -> run_sacn true ip univ (comma steps)
   | ["art"; ltp; steps] -> run_art ltp (comma steps)
   | ["consts"] -> Printf.sprintf "expiry_us=%s;class=consts" (ni eXPIRY_INTERVAL_US)
   | _ -> "bad-op"
